@@ -89,13 +89,14 @@ theorem varUnset_ev (c : Cfg) (x : VarId) (s : St) :
   · by_cases hf : c.fails x (s.cnt x) = true <;> simp [hl, hf]
   · simp [hl]
 
-theorem refSet_other (c : Cfg) (r : Ref) (v : Val) (s : St) (y : VarId) (h : y ≠ r.head) :
+theorem refSet_other (c : Cfg) (r : LV) (v : Val) (s : St) (y : VarId) (h : y ≠ r.head) :
     (refSet c r v s).st.store y = s.store y := by
   cases r with
   | var x => simpa [refSet] using varSet_other c x y v s h
-  | elem x i =>
+  | elem x k ks =>
     simp only [refSet]
     split
+    · rfl
     · rfl
     · simpa using varSet_other c x y _ s h
 
